@@ -607,16 +607,19 @@ def _ops():
         gf = slide(prs, rnd).shapes.add_chart(ct, 0, 0, Inches(3), Inches(2), cat_data(rnd))
         ch = gf.chart
         ch.has_legend = rnd.choice([True, False])
+        ch.has_legend = ch.has_legend  # a switch may be set to the position it is in (a bare legend just created included)
         if ch.has_legend:
             ch.legend.position = rnd.choice([m for m in XL_LEGEND_POSITION if m.name != "CUSTOM"][:4])
             ch.legend.include_in_layout = rnd.choice([True, False])
             ch.legend.font.size = Pt(9)
         ch.has_title = rnd.choice([True, False])
+        ch.has_title = ch.has_title
         if ch.has_title:
             ch.chart_title.text_frame.text = "T"
         ch.font.size = Pt(10)
         pl = ch.plots[0]
         pl.has_data_labels = rnd.choice([True, False])
+        pl.has_data_labels = pl.has_data_labels
         if pl.has_data_labels:
             dl = pl.data_labels
             dl.show_value = True
